@@ -297,7 +297,7 @@ var c16Lists = []string{"To", "Bto", "CC", "BCC", "Audience"}
 
 func checkC16(w *World, c *Check, tier string) {
 	c.Exhaustive = true
-	c.Explanation = "Decides the structural clauses of flattening: (cover) in the closure of the Flatten*Properties entry points each of the fifteen flattened properties (actor, target, result, origin, instrument, object, attributedTo, replies, likes, shares; to, bto, cc, bcc, audience) is reassigned from a flattener applied to that same property of the same value — no property is flattened from another one and none is skipped; (frame) no other property of a vocabulary struct is written anywhere in those closures; (guard) every flattener that can replace an item by an identifier (a value obtained from GetLink/GetID of its argument) does so only on the true side of both an is-object test and a non-empty test of that identifier, so plain IRIs, links and id-less embedded objects are returned unchanged; (nil) by abstract interpretation the flatteners return nil-likes unchanged or as nil without faulting. (align) a positional overwrite of list members takes its position from a loop over that very list. (every-exit) in each Flatten*Properties entry point every flattening site lies on every path to a return except the nil side of a test of the argument. (Normalize) ItemCollection.Normalize returns nil, the list or one of its members. NOT decided: idempotence, equality of the produced IRI with the id for concrete values."
+	c.Explanation = "Decides the structural clauses of flattening: (cover) in the closure of the Flatten*Properties entry points each of the fifteen flattened properties (actor, target, result, origin, instrument, object, attributedTo, replies, likes, shares; to, bto, cc, bcc, audience) is reassigned from a flattener applied to that same property of the same value — no property is flattened from another one and none is skipped; (frame) no other property of a vocabulary struct is written anywhere in those closures; (guard) every flattener that can replace an item by an identifier (a value obtained from GetLink/GetID of its argument) does so only on the true side of both an is-object test and a non-empty test of that identifier, so plain IRIs, links and id-less embedded objects are returned unchanged; (nil) by abstract interpretation the flatteners return nil-likes unchanged or as nil without faulting. (align) a positional overwrite of list members takes its position from a loop over that very list. (every-exit) in each Flatten*Properties entry point every flattening site lies on every path to a return except the nil side of a test of the argument. (Normalize) ItemCollection.Normalize returns nil, the list or one of its members. NOT decided: idempotence, equality of the produced IRI with the id for concrete values. (lists) Flatten handed a non-nil item list reaches FlattenItemCollection."
 	c.RuleText = "15 properties x {cover} + frame scan + guard obligations per identifier-returning flattener; exhaustive"
 	c.Trusted = []string{"go/ssa", "apcheck prov.go, abstract interpreter"}
 	c.floor("C16.cover", 15)
